@@ -141,7 +141,7 @@ def _rand_case(rng):
         others = [o for o in ("wmut", "w2", "fnkw") if rng.random() < 0.6] or ["wmut"]
     to = rng.choice(TIMEOUTS) if rng.random() < 0.45 else None
     badexpr = None
-    if rng.random() < 0.05 and (st is None or st["cn"] is False):
+    if rng.random() < 0.05 and (st is None or (st["cn"] is False and st["hf"] is None)):
         badexpr = rng.choice(["mqtt", "webhook"])
     kinds = ["U", "O"]
     if st is not None:
@@ -175,6 +175,7 @@ def _rand_case(rng):
         elif hold and not hf and k in ("F", "X", "I") and rng.random() < 0.6:
             k = "T"          # state_hold cases: mostly still-true changes (true, true', true'' with different values)
         hist.append([t, k])
+    hist.sort(key=lambda e: e[0])      # the off-grid choice may step back inside a second: keep the history in time order
     cancel = None
     how = "cancel"
     if rng.random() < 0.35:
